@@ -99,6 +99,7 @@ def run(chk, program, tier):
     dump_file(chk, program)
     json_rules(chk, program)
     message_fields(chk, program)
+    serialisable_classes(chk, program)
     # value / raw_value producers of every generated field (C01 GEN-DEC slots): what reaches to_json is what the type table prescribes
     from .. import rules_gen as RG
     RG.gen_dec(chk, program, slots=['value', 'raw_value'], rule='JSON-TYPES', with_msg=False, with_flow=False)
@@ -118,6 +119,40 @@ class _Null:
     def __getattr__(self, n):
         return lambda *a, **k: True
     units = {}
+
+def serialisable_classes(chk, program):
+    """orjson serialises dataclass instances and Enum members natively; an instance of any other class goes to the default hook, which raises.
+    The objects a message can carry -- the message itself, its fields, the source identity -- must therefore be dataclasses, the quantity /
+    field-type values Enum members."""
+    m = program.mod('message')
+    def is_dataclass(c):
+        return any((isinstance(d, ast.Name) and d.id == 'dataclass') or (isinstance(d, ast.Attribute) and d.attr == 'dataclass') or
+                   (isinstance(d, ast.Call) and ((isinstance(d.func, ast.Name) and d.func.id == 'dataclass') or (isinstance(d.func, ast.Attribute) and d.func.attr == 'dataclass')))
+                   for d in c.decorator_list)
+    for cname in ('NMEA2000Message', 'NMEA2000Field', 'IsoName'):
+        c = m.classes.get(cname)
+        if c is None:
+            chk.unknown('JSON-TYPES', f"class::{cname}", 'class not found in message.py', MSG, 0)
+            continue
+        slots = any(isinstance(n, ast.Assign) and any(isinstance(t, ast.Name) and t.id == '__slots__' for t in n.targets) for n in c.body)
+        if not is_dataclass(c):
+            # the hook passed as default= may convert it; any mention of the class there is taken as handling (never an alarm on an unread spelling)
+            tj = (m.raw_tree if hasattr(m, 'raw_tree') else m.tree)
+            hook_names = {n.id for f in ast.walk(tj) if isinstance(f, ast.FunctionDef) and f.name == 'to_json' for n in ast.walk(f) if isinstance(n, ast.Name)}
+            bases = {b.id for b in c.bases if isinstance(b, ast.Name)}
+            if cname in hook_names or bases & {'dict', 'list', 'str', 'int', 'float', 'TypedDict'} or any(hasattr(x, 'name') and x.name in ('to_json', '__json__') for x in c.body if cname != 'NMEA2000Message'):
+                chk.check(True, 'JSON-TYPES', f"class::{cname}::dataclass", file=MSG, line=c.lineno, func=cname, found='not a dataclass, converted by the hook / a native container')
+                continue
+        chk.check(is_dataclass(c), 'JSON-TYPES', f"class::{cname}::dataclass", file=MSG, line=c.lineno, func=cname, expected='@dataclass (serialised natively by orjson)',
+                  found='dataclass' if is_dataclass(c) else ('plain class' + (' with __slots__' if slots else '')),
+                  detail='' if is_dataclass(c) else 'to_json raises TypeError for every message that carries an instance of this class (e.g. any message from a source that has claimed its address)')
+    cm = program.mod('consts') if 'consts' in program.modules else None
+    for cname in ('PhysicalQuantities', 'FieldTypes'):
+        c = (cm.classes.get(cname) if cm else None) or m.classes.get(cname)
+        if c is None:
+            continue
+        is_enum = any((isinstance(b, ast.Name) and b.id.endswith('Enum')) or (isinstance(b, ast.Attribute) and b.attr.endswith('Enum')) for b in c.bases)
+        chk.check(is_enum, 'JSON-TYPES', f"class::{cname}::enum", file='nmea2000/consts.py', line=c.lineno, func=cname, expected='an Enum (serialised natively by orjson)', found=[ast.unparse(b) for b in c.bases])
 
 def message_fields(chk, program):
     """to_json dumps the whole __dict__ of the message; from_json rebuilds only `fields` as objects.  Every other dataclass field therefore
